@@ -252,8 +252,6 @@ class MTree:
                 for v in victims:
                     if any(self.inside(w, v) for w in victims if w is not v):
                         return Unspec("keep_children + with_clones on nested clones")
-                    if self.typed and v.children:
-                        return Unspec("typed")
                     others = [c for c in self.kids(self.parent_of(v)) if c is not v]
                     ids = [c.data_id for c in v.children]
                     if any(o.data_id in ids for o in others):
@@ -275,8 +273,6 @@ class MTree:
             ids = [c.data_id for c in n.children]
             if any(o.data_id in ids for o in others):
                 return Refuse(UNIQ)
-            if self.typed and n.children:
-                return Refuse(UNSUP)
             i = next(k for k, c in enumerate(K) if c is n)
             K[i:i + 1] = n.children
             n.children = []
